@@ -555,6 +555,16 @@ static void gen_restrict(char *out, size_t cap) {
   int bynode = rng_chance(30);
   hwloc_const_bitmap_t whole = bynode ? hwloc_topology_get_topology_nodeset(topo) : hwloc_topology_get_topology_cpuset(topo);
   hwloc_bitmap_t b = hwloc_bitmap_alloc(); int i;
+  if (!bynode && rng_chance(40)) {
+    /* drop the whole cpuset of one or two NUMA nodes: they stay in the topology without CPUs (default restrict flags) */
+    int nn = hwloc_get_nbobjs_by_type(topo, HWLOC_OBJ_NUMANODE);
+    hwloc_bitmap_copy(b, whole);
+    for (int k = 0, m = 1 + (int) rng_below(2); k < m && nn > 1; k++) {
+      hwloc_obj_t node = hwloc_get_obj_by_type(topo, HWLOC_OBJ_NUMANODE, rng_below(nn));
+      if (node && node->cpuset && !hwloc_bitmap_isequal(node->cpuset, b)) hwloc_bitmap_andnot(b, b, node->cpuset);
+    }
+    if (hwloc_bitmap_iszero(b)) hwloc_bitmap_copy(b, whole);
+  } else
   hwloc_bitmap_foreach_begin(i, whole) { if (rng_chance(60)) hwloc_bitmap_set(b, i); } hwloc_bitmap_foreach_end();
   if (rng_chance(8)) hwloc_bitmap_zero(b);                    /* refused: EINVAL, the tool goes on unrestricted */
   if (rng_chance(8)) hwloc_bitmap_set(b, hwloc_bitmap_last(whole) + 3);
@@ -568,7 +578,7 @@ static int gen_load(char mode, int want_xml) {
     if (kind == 'X') input = xml_list[rng_below(nxml)]; else { gen_synthetic(syn, sizeof syn); input = syn; }
     if (load_topology(kind, mode, NULL, input) < 0) continue;
     restr[0] = 0;
-    if ((mode == 'A' || mode == 'D') && rng_chance(15)) { gen_restrict(restr, sizeof restr); if (load_topology(kind, mode, restr, input) < 0) continue; }
+    if ((mode == 'A' || mode == 'D') && rng_chance(28)) { gen_restrict(restr, sizeof restr); if (load_topology(kind, mode, restr, input) < 0) continue; }
     if (restr[0]) { char *e = esc(restr, strlen(restr)); snprintf(mt, sizeof mt, "%c:%s", mode, e); free(e); } else snprintf(mt, sizeof mt, "%c", mode);
     snprintf(line, sizeof line, "LOAD %c %s %s", kind, mt, input);
     unload();       /* emit_line loads it again (same path as replay) */
@@ -590,6 +600,9 @@ static void gen_type(char *out, size_t cap, int normal_only) {
   char buf[64];
   int td = hwloc_topology_get_depth(topo);
   unsigned k = rng_below(100);
+  /* a topology with CPU-less objects (after --restrict, or CPU-less memory nodes): counting and indexing of a level must agree
+   * on them, so visit the NUMA level (and the levels of CPU-less normal objects) more often */
+  if (cur_restrict[0] && rng_chance(35)) k = 60;
   if (k < 55) snprintf(out, cap, "%s", level_name((int) rng_below(td), buf, sizeof buf));
   else if (k < 65) snprintf(out, cap, "%s", rng_chance(50) ? "numa" : (rng_chance(50) ? "node" : "NUMANode"));
   else if (k < 75) snprintf(out, cap, "%u", rng_below(td + 1));
